@@ -232,7 +232,17 @@ type StateSpec struct {
 	Note    string
 }
 
+func isPositional(k string) bool {
+	for _, p := range positional {
+		if p == k {
+			return true
+		}
+	}
+	return false
+}
+
 type sessOpts struct {
+	Stale     bool // also query between Load and Collect (stale targets / origins)
 	FpEvery   int // fingerprint after every Q event of every n-th state (0 = never)
 	Prefill   bool
 	AllKinds  bool
@@ -286,6 +296,39 @@ func runState(tw *traceWriter, w *watch, env *Env, path string, st StateSpec, so
 	if !parsed {
 		return
 	}
+	bounds := Boundaries(st.Src)
+	if so.Stale {
+		// queries between the edit and the re-collection: the context still holds the targets / origins of the previous buffer
+		offs := st.Offsets
+		if offs == nil {
+			for i, b := range bounds {
+				if i%3 == 0 {
+					offs = append(offs, b.Byte)
+				}
+			}
+		}
+		byOff := map[int]hcl.Pos{}
+		for _, b := range bounds {
+			byOff[b.Byte] = b
+		}
+		kinds := append(append([]string{}, positional...), "tokens", "symbols", "links", "validatefile", "validate", "wsymbols")
+		for _, kind := range kinds {
+			a := newAgg(kind)
+			if isPositional(kind) {
+				for _, o := range offs {
+					if p, ok := byOff[o]; ok {
+						q := Q{Kind: kind, Path: path, File: st.File, Pos: p}
+						a.Add(q, env.Run(w, q))
+					}
+				}
+			} else {
+				q := Q{Kind: kind, Path: path, File: st.File}
+				a.Add(q, env.Run(w, q))
+			}
+			ev := a.Event(path, st.File)
+			tw.Emit(Event{"ev": "QS", "k": kind, "p": path, "f": st.File, "hist": ev["hist"], "panics": ev["panics"], "n": ev["n"], "fp": ""})
+		}
+	}
 	tOut, oOut := env.Recollect(w, path)
 	cev := Event{"ev": "Collect", "p": path, "t": tOut.Status, "o": oOut.Status, "panics": []Event{}}
 	ps := []Event{}
@@ -302,7 +345,6 @@ func runState(tw *traceWriter, w *watch, env *Env, path string, st StateSpec, so
 	}
 	tw.Emit(cev)
 
-	bounds := Boundaries(st.Src)
 	var poss []hcl.Pos
 	if st.Offsets == nil {
 		poss = bounds
